@@ -1,6 +1,6 @@
 SPECIFICATION LegalSpec
 CONSTANT Cfg <- MCCfg332
-CONSTANT MaxItems = 4
+CONSTANT MaxItems = 3
 INVARIANT Protocol
 INVARIANT MaskSound
 INVARIANT MaskComplete
